@@ -28,6 +28,11 @@
 (*                         by a later owner of a higher version.  FALSE =  *)
 (*                         the ideal: the owner is aggregated like any     *)
 (*                         other requirement under the name it was used by.*)
+(*   DEV_WorldMerge        (code as it is, KF28) merge_world and           *)
+(*                         merge_module_type: union of the imports, the    *)
+(*                         subtype of a common import and the supertype of *)
+(*                         a common export are kept.  FALSE = the merged   *)
+(*                         type is the greatest common subtype (CMerge).   *)
 (*                                                                         *)
 (* The state machine appends one contributor at a time; invariants tie     *)
 (* the Impl state to the contract for every history (= every order).       *)
@@ -38,7 +43,8 @@ CONSTANTS MaxContrib,           \* longest history
           Focus,                \* contributor ids histories are drawn from
           DEV_NestedSupertype,
           DEV_OwnerImportTwice,
-          DEV_OwnerNaming
+          DEV_OwnerNaming,
+          DEV_WorldMerge
 
 Contrib(id) == AG_Contribs[id]
 
@@ -66,22 +72,70 @@ SeqOfSet(S) ==
 UsesOK(a, b) ==
   \A n \in DOMAIN a.us \cap DOMAIN b.us : SameIface(a.us[n].iface, b.us[n].iface) /\ a.us[n].name = b.us[n].name
 
+Max2(x, y) == IF x >= y THEN x ELSE y
+Min2(x, y) == IF x <= y THEN x ELSE y
+
+(* Component- and module-kinded requirements ([c |-> "comp" | "mod", im, ex], Types.tla).  The merged     *)
+(* type must be a subtype of every contributor's: it offers the union of the exports (merged, covariant)  *)
+(* and may need at most what EVERY contributor provides -- the common imports, each under the least kind  *)
+(* both required kinds are subtypes of (the join; an import without a join is not needed at all).         *)
+RECURSIVE HasJoin(_, _), Join(_, _)
+HasJoin(a, b) == a.c = b.c /\ (a.c = "inst" \/ a = b)
+Join(a, b) ==
+  IF a.c # "inst" THEN a
+  ELSE [c |-> "inst",
+        ex |-> [e \in {x \in DOMAIN a.ex \cap DOMAIN b.ex : HasJoin(a.ex[x], b.ex[x])} |-> Join(a.ex[e], b.ex[e])],
+        us |-> <<>>]
+\* core externs: the meet (offered by the merged module: within both limits) and the join (needed by it)
+XHasMeet(a, b) ==
+  /\ a.x = b.x
+  /\ IF a.x = "mem"
+     THEN /\ a.shared = b.shared /\ a.m64 = b.m64
+          /\ LET m == IF a.max = -1 THEN b.max ELSE IF b.max = -1 THEN a.max ELSE Min2(a.max, b.max)
+             IN m = -1 \/ Max2(a.init, b.init) <= m
+     ELSE a = b
+XMeet(a, b) ==
+  IF a.x = "mem"
+  THEN [a EXCEPT !.init = Max2(a.init, b.init),
+                 !.max = IF a.max = -1 THEN b.max ELSE IF b.max = -1 THEN a.max ELSE Min2(a.max, b.max)]
+  ELSE a
+XHasJoin(a, b) == a.x = b.x /\ IF a.x = "mem" THEN a.shared = b.shared /\ a.m64 = b.m64 ELSE a = b
+XJoin(a, b) ==
+  IF a.x = "mem"
+  THEN [a EXCEPT !.init = Min2(a.init, b.init), !.max = IF a.max = -1 \/ b.max = -1 THEN -1 ELSE Max2(a.max, b.max)]
+  ELSE a
+
 RECURSIVE CMergeable(_, _)
 CMergeable(a, b) ==
   /\ a.c = b.c
   /\ CASE a.c = "func" -> a.sig = b.sig
        [] a.c = "rtype" -> a.desc = b.desc
        [] a.c = "inst" -> UsesOK(a, b) /\ \A e \in DOMAIN a.ex \cap DOMAIN b.ex : CMergeable(a.ex[e], b.ex[e])
+       [] a.c = "comp" -> \A e \in DOMAIN a.ex \cap DOMAIN b.ex : CMergeable(a.ex[e], b.ex[e])
+       [] a.c = "mod" -> \A e \in DOMAIN a.ex \cap DOMAIN b.ex : XHasMeet(a.ex[e], b.ex[e])
        [] OTHER -> FALSE
 
 RECURSIVE CMerge(_, _)
 CMerge(a, b) ==
-  IF a.c # "inst" THEN a
-  ELSE [c |-> "inst",
-        ex |-> [e \in DOMAIN a.ex \cup DOMAIN b.ex |->
-                  IF e \in DOMAIN a.ex /\ e \in DOMAIN b.ex THEN CMerge(a.ex[e], b.ex[e])
-                  ELSE IF e \in DOMAIN a.ex THEN a.ex[e] ELSE b.ex[e]],
-        us |-> [n \in DOMAIN a.us \cup DOMAIN b.us |-> IF n \in DOMAIN a.us THEN a.us[n] ELSE b.us[n]]]
+  CASE a.c = "inst" ->
+         [c |-> "inst",
+          ex |-> [e \in DOMAIN a.ex \cup DOMAIN b.ex |->
+                    IF e \in DOMAIN a.ex /\ e \in DOMAIN b.ex THEN CMerge(a.ex[e], b.ex[e])
+                    ELSE IF e \in DOMAIN a.ex THEN a.ex[e] ELSE b.ex[e]],
+          us |-> [n \in DOMAIN a.us \cup DOMAIN b.us |-> IF n \in DOMAIN a.us THEN a.us[n] ELSE b.us[n]]]
+    [] a.c = "comp" ->
+         [c |-> "comp",
+          im |-> [n \in {x \in DOMAIN a.im \cap DOMAIN b.im : HasJoin(a.im[x], b.im[x])} |-> Join(a.im[n], b.im[n])],
+          ex |-> [e \in DOMAIN a.ex \cup DOMAIN b.ex |->
+                    IF e \in DOMAIN a.ex /\ e \in DOMAIN b.ex THEN CMerge(a.ex[e], b.ex[e])
+                    ELSE IF e \in DOMAIN a.ex THEN a.ex[e] ELSE b.ex[e]]]
+    [] a.c = "mod" ->
+         [c |-> "mod",
+          im |-> [n \in {x \in DOMAIN a.im \cap DOMAIN b.im : XHasJoin(a.im[x], b.im[x])} |-> XJoin(a.im[n], b.im[n])],
+          ex |-> [e \in DOMAIN a.ex \cup DOMAIN b.ex |->
+                    IF e \in DOMAIN a.ex /\ e \in DOMAIN b.ex THEN XMeet(a.ex[e], b.ex[e])
+                    ELSE IF e \in DOMAIN a.ex THEN a.ex[e] ELSE b.ex[e]]]
+    [] OTHER -> a
 
 (***************************************************************************)
 (* Contract.                                                               *)
@@ -177,6 +231,26 @@ MergeExport(ifc, t, s) ==
 \* merge_interface(existing = t, source = s)
 MergeInto(ifc, t, s) ==
   IF t.c # s.c THEN Fail(ifc)
+  ELSE IF t.c \in {"comp", "mod"} THEN
+    IF ~DEV_WorldMerge
+    THEN (IF CMergeable(t, s) THEN Done(ifc, CMerge(t, s)) ELSE Fail(ifc))
+    ELSE \* merge_world / merge_module_type as they are (KF28): the UNION of the imports; of an import both
+         \* have the SUBtype is kept, of an export both have the SUPERtype; unrelated kinds fail
+         LET S(a, b) == IF t.c = "comp" THEN Sub(a, b) ELSE ExternSub(a, b)
+             bothIm == DOMAIN t.im \cap DOMAIN s.im
+             bothEx == DOMAIN t.ex \cap DOMAIN s.ex
+         IN IF \/ \E n \in bothIm : ~S(t.im[n], s.im[n]) /\ ~S(s.im[n], t.im[n])
+               \/ \E n \in bothEx : ~S(s.ex[n], t.ex[n]) /\ ~S(t.ex[n], s.ex[n])
+            THEN Fail(ifc)
+            ELSE Done(ifc, [c |-> t.c,
+                            im |-> [n \in DOMAIN t.im \cup DOMAIN s.im |->
+                                      IF n \notin DOMAIN s.im THEN t.im[n]
+                                      ELSE IF n \notin DOMAIN t.im THEN s.im[n]
+                                      ELSE IF S(t.im[n], s.im[n]) THEN t.im[n] ELSE s.im[n]],
+                            ex |-> [n \in DOMAIN t.ex \cup DOMAIN s.ex |->
+                                      IF n \notin DOMAIN s.ex THEN t.ex[n]
+                                      ELSE IF n \notin DOMAIN t.ex THEN s.ex[n]
+                                      ELSE IF S(s.ex[n], t.ex[n]) THEN t.ex[n] ELSE s.ex[n]]])
   ELSE IF t.c # "inst" THEN (IF Sub(s, t) /\ Sub(t, s) THEN Done(ifc, t) ELSE Fail(ifc))
   ELSE
     LET us == SeqOfSet(DOMAIN s.us)
@@ -317,8 +391,15 @@ Spec == Init /\ [][Next]_vars
 (***************************************************************************)
 (* Properties of the Impl state, for every history.                        *)
 (***************************************************************************)
+\* KF28 (DEV_WorldMerge): two different component- or module-kinded requirements for one name are merged by
+\* merge_world / merge_module_type, which do not compute a common subtype; such histories are excused from
+\* the invariants about outcome and merged kind (names, uniqueness and idempotence are still checked)
+WorldShape(h) ==
+  \E r1, r2 \in Explicit(h) : /\ Key(r1.name) = Key(r2.name) /\ r1.kind.c \in {"comp", "mod"}
+                              /\ r1.kind.c = r2.kind.c /\ r1.kind # r2.kind
+WorldExcused(h) == DEV_WorldMerge /\ WorldShape(h)
 \* fails exactly when two contributors are incompatible
-FailsExactly == st.failed = Fails(hist)
+FailsExactly == ~WorldExcused(hist) => st.failed = Fails(hist)
 \* one import per key, under the highest version; merged kinds are the unions; names are unique
 \* KF24 (DEV_OwnerNaming): the import of a resource's owner is named outside the supersede logic.  Its name
 \* agrees with the contract in every order only when the highest name spelled on that track is an explicit
@@ -328,13 +409,13 @@ OwnerNameShape(h) ==
     LET ns == {r.name : r \in {x \in AllReqs(h) : Key(x.name) = Key(o.name)}}
         top == CHOOSE n \in ns : \A m \in ns : m = n \/ m.ver = <<>> \/ Higher(n, m)
     IN ~\E r \in Explicit(h) : r.name = top
-Excused(h) == DEV_OwnerNaming /\ OwnerNameShape(h)
+Excused(h) == (DEV_OwnerNaming /\ OwnerNameShape(h)) \/ WorldExcused(h)
 MatchesContract == ~st.failed /\ ~Fails(hist) /\ ~Excused(hist) => ImplImports(st) = {[name |-> i.name, kind |-> NormKind(i.kind)] : i \in ContractImports(hist)}
 UniqueNames == \A i, j \in DOMAIN st.imports : st.imports[i].n.s = st.imports[j].n.s => i = j
 \* whatever an import is called (also in the excused histories): one import per compatibility key, of the merged kind
 OneImportPerKey == ~st.failed => \A i, j \in DOMAIN st.imports : Key(st.imports[i].n) = Key(st.imports[j].n) => i = j
 MatchesByKey ==
-  ~st.failed /\ ~Fails(hist) =>
+  ~st.failed /\ ~Fails(hist) /\ ~WorldExcused(hist) =>
     {[key |-> Key(st.imports[i].n), kind |-> NormKind(ImportKind(st, st.imports[i]))] : i \in DOMAIN st.imports}
       = {[key |-> k, kind |-> NormKind(MergedKind(hist, k))] : k \in {Key(r.name) : r \in Required(hist)}}
 \* every lower name is redirected to the canonical name, which is imported (chains have length one)
@@ -345,6 +426,13 @@ Canonical ==
       /\ \E i \in DOMAIN st.imports : st.imports[i].n.s = ImplCanon(st, s)
 \* the merged type satisfies every contributor
 Satisfies ==
+  ~st.failed /\ ~WorldExcused(hist) =>
+    \A r \in Explicit(hist) :
+      \E i \in DOMAIN st.imports :
+        /\ st.imports[i].n.s = ImplCanon(st, r.name.s)
+        /\ Sub(ImportKind(st, st.imports[i]), r.kind)
+\* (the same with nothing excused: refuted for the code as it is, Agg_found3.cfg)
+SatisfiesAll ==
   ~st.failed =>
     \A r \in Explicit(hist) :
       \E i \in DOMAIN st.imports :
